@@ -116,6 +116,8 @@ var c12Prologues = []struct{ name, text string }{
 	{"leading-ws", "\n \t<html>\n<head>\n"},
 	{"body-text", `<html><body><p>some text, charset=fake, meta</p>`},
 	{"utf8-bom", "\xEF\xBB\xBF<html><head>"},
+	{"long-comment-1500", "<html><!-- " + strings.Repeat("padding ", 190) + "--><head>"},
+	{"long-text-2500", "<html><body><p>" + strings.Repeat("lorem ipsum ", 208) + "</p>"},
 }
 
 var c12Epilogues = []string{``, `</head><body>text</body></html>`, "\n<p>caf\xe9</p>"}
@@ -156,7 +158,7 @@ func c12Run(c *core.Ctx) {
 		limits := []uint32{0, 3072, uint32(declEnd), uint32(len(doc))}
 		if allCuts {
 			limits = limits[:2]
-			for cut := declEnd; cut <= len(doc)+1; cut++ {
+			for cut := declEnd; cut <= len(doc)+1 && cut <= declEnd+120; cut++ {
 				limits = append(limits, uint32(cut))
 			}
 		}
